@@ -271,6 +271,10 @@ def record_stream(ctx, md, scratch, viol, reqs, meta):
         xyz = np.array([[[rng.choice([1, -1]) * rng.choice([0.0125, 1.2345, 12.5, 99.9995, 123.4567]) for _ in range(3)] for _ in range(na)]], dtype=np.float32)
         bf = np.array([rng.choice([0.0, 1.5, 25.25, 99.99, -9.99]) for _ in range(na)]) if rng.random() < 0.5 else None
         t = md.Trajectory(xyz, top)
+        with_cell = rng.random() < 0.7
+        if with_cell:
+            t.unitcell_lengths = np.array([[rng.choice([1.5, 12.3456, 99.99995, 250.0]) for _ in range(3)]], dtype=np.float32)
+            t.unitcell_angles = np.array([rng.choice([[90.0, 90.0, 90.0], [75.5, 100.25, 115.0], [60.0, 60.0, 90.0]])], dtype=np.float32)
         ctx.case(None, ("records", k)); ctx.count("topologies written as whole records")
         # ---- pdb
         p = os.path.join(scratch, "rec.pdb")
@@ -281,6 +285,14 @@ def record_stream(ctx, md, scratch, viol, reqs, meta):
             viol("records|pdb|raises", "saving a .pdb raised %s: %s" % (type(e).__name__, str(e)[:100]), dict(case=k))
             lines = None
         if lines is not None:
+            if with_cell:
+                cl = [l for l in open(p).read().split("\n") if l.startswith("CRYST1")]
+                L10 = [float(np.float32(v) * np.float32(10.0)) for v in t.unitcell_lengths[0]]      # as save_pdb hands them over: single precision nm times ten
+                if len(cl) != 1:
+                    viol("native-layout|records|cryst1", "the .pdb file holds %d CRYST1 records" % len(cl), dict(case=k))
+                else:
+                    reqs.append("txt cryst1 %s %s" % (" ".join(rat(v) for v in L10), " ".join(rat(float(v)) for v in t.unitcell_angles[0])))
+                    meta.append(("recline", k, "pdb", (cl[0], -1), dict(case=k, atom=-1)))
             if len(lines) != na:
                 viol("native-layout|records|pdb", "the .pdb file holds %d ATOM records for %d atoms" % (len(lines), na), dict(case=k))
             else:
@@ -312,6 +324,11 @@ def record_stream(ctx, md, scratch, viol, reqs, meta):
             viol("records|gro|raises", "saving a .gro raised %s: %s" % (type(e).__name__, str(e)[:100]), dict(case=k))
             glines = None
         if glines is not None:
+            if with_cell:
+                bl = open(p).read().split("\n")[2 + na]
+                v = t.unitcell_vectors[0]
+                reqs.append("txt grobox %s" % " ".join(rat(float(x_)) for x_ in (v[0, 0], v[1, 1], v[2, 2], v[0, 1], v[0, 2], v[1, 0], v[1, 2], v[2, 0], v[2, 1])))
+                meta.append(("recline", k, "gro", (bl, -2), dict(case=k, atom=-2)))
             for i, (r_, line) in enumerate(zip(rows, glines)):
                 serial = r_["serial"] if r_["serial"] is not None else i
                 reqs.append("txt groline %d %d %s %s %d %s %s %s" % (prec, r_["rseq"], hx(r_["resn"]), hx(r_["name"]), serial, rat(float(xyz[0, i, 0])), rat(float(xyz[0, i, 1])), rat(float(xyz[0, i, 2]))))
